@@ -190,6 +190,11 @@ TWIN_ENTRIES = [
     ("en", 'S(Pro("I"),VP(V("see"),NP(D("a"),A("big"),N("cat"))))'), ("fr", 'S(Pro("je"),VP(V("voir"),NP(D("un"),A("grand"),N("chat"))))'),
     ("en", 'S(CP(C("and"),NP(D("the"),N("cat")),NP(D("the"),N("dog"))),VP(V("sleep")))'), ("fr", 'S(CP(C("et"),NP(D("le"),N("chat")),NP(D("le"),N("chien"))),VP(V("dormir")))'),
     ("en", 'Q("hello")'), ("fr", 'Adv("bien")'), ("en", 'P("of")'), ("fr", 'C("mais")'),
+    # coordinations of three members (the list commas are installed on the members at realization time)
+    ("en", 'S(CP(C("and"),NP(D("the"),N("cat")),NP(D("the"),N("dog")),NP(D("the"),N("bird"))),VP(V("sleep")))'),
+    ("fr", 'S(CP(C("et"),NP(D("le"),N("chat")),NP(D("le"),N("chien")),NP(D("le"),N("oiseau"))),VP(V("dormir")))'),
+    ("en", 'root(V("sleep"),coord(C("and"),subj(N("cat"),det(D("the"))),subj(N("dog"),det(D("the"))),subj(N("bird"),det(D("the")))))'),
+    ("fr", 'CP(NP(D("le"),N("chat")),NP(D("le"),N("chien")),NP(D("le"),N("oiseau")))'),
 ]
 
 
@@ -211,9 +216,12 @@ def run_twin_scenarios():
         prev = None
         for path, k in paths:
             for m, a in ops_for_kind(k, lang):
+              for realize_first in (False, True):
                 with Quiet() as qz:
                     try:
                         x, y = build(src, lang), build(src, lang)
+                        if realize_first:       # what realization installs on x (list commas …) must stay x's own
+                            x.realize()
                         if snapshot(y) != ref_snap0:
                             fails.append(("twin:construction-depends-on-earlier-expression:" + k, {"src": src, "lang": lang, "earlier": prev},
                                           {"field": snap_diff(snapshot(y), ref_snap0), "history": "the same source was built before and `earlier` applied to that copy"}))
@@ -228,7 +236,7 @@ def run_twin_scenarios():
                         ty, tz = y.realize(), z.realize()
                     except Exception:  # noqa
                         continue
-                inp = {"src": src, "lang": lang, "path": path, "op": [m, a]}
+                inp = {"src": src, "lang": lang, "path": path, "op": [m, a], "first_copy_realized_before_the_option": realize_first}
                 if after != ref_snap0:
                     fails.append(("twin:option-on-one-expression-changes-a-separate-one:%s.%s" % (k, m), inp, {"field": snap_diff(after, ref_snap0)}))
                 elif zs != ref_snap0:
